@@ -86,21 +86,33 @@ def copies_and_combinations(repo, chk):
     t = term_of(fn, r[0].value, inline=True) if r else None
     chk.expect(t in (E('numpy.column_stack((X, X[:, feature_indices]))'), E('numpy.hstack((X, X[:, feature_indices]))'), E('numpy.concatenate((X, X[:, feature_indices]), axis=1)')), 'C20.2a', 'R15', fn.site(r[0]) if r else fn.site(), ast.unparse(r[0]) if r else '',
                'duplicates are the selected columns appended unchanged', f'duplicates must be X[:, feature_indices] appended to X unchanged; found {show(t)[:120] if t else None}')
+    # generate_combinations evaluated for each built-in combination type (the default function looked up, applied to the selected columns):
+    # the matrix returned must be X with exactly that combination appended as one column
+    from ..match import run_paths, within_vocabulary
+    from ..terms import pattern, unify
     fn = repo.func(CC, f'{CLS}.generate_combinations')
-    r = returns(fn)
-    lam = {}
-    for n in own_nodes(fn.node):
-        if isinstance(n, ast.Assign) and isinstance(n.value, ast.Lambda) and isinstance(n.targets[0], ast.Name):
-            par = parents(fn.node)
-            g = par.get(n)
-            key = ast.unparse(g.test) if isinstance(g, ast.If) else ''
-            lam[key] = term_of(fn, n.value, inline=False)
-    ok_lin = lam.get("combination_type == 'linear'") == E('lambda x: numpy.sum(x, axis=1)')
-    ok_non = lam.get("combination_type == 'nonlinear'") == E('lambda x: numpy.sin(numpy.sum(x, axis=1))')
-    chk.expect(ok_lin and ok_non, 'C20.2b', 'R15', fn.site(), f'default combination functions: {sorted(lam)}', 'linear = row sum, nonlinear = sin of the row sum', 'default combination functions must be sum(axis=1) and sin(sum(axis=1))')
-    res = [n for n in own_nodes(fn.node) if isinstance(n, ast.Assign) and isinstance(n.value, ast.Call) and isinstance(n.value.func, ast.Name) and n.value.func.id == 'combination_function']
-    ok_app = len(res) == 1 and term_of(fn, res[0].value.args[0], inline=True) == E('X[:, feature_indices]') and r and ast.unparse(r[0].value) == f'np.column_stack((X, {res[0].targets[0].id}))'
-    chk.expect(ok_app, 'C20.2c', 'R15', fn.site(res[0]) if res else fn.site(), ast.unparse(res[0]) if res else '', 'the combination is the function applied to the selected columns, appended as one column', 'the combination must be combination_function(X[:, feature_indices]) appended to X')
+    want = {'linear': E('numpy.sum(X[:, feature_indices], axis=1)'), 'nonlinear': E('numpy.sin(numpy.sum(X[:, feature_indices], axis=1))')}
+    none_atom = E('combination_function is None')
+    for ctype, want_t in want.items():
+        paths = run_paths(fn, lambda e: isinstance(e, ast.Name) and e.id == 'combination_type', ctype, max_forks=3, eval_closures=True)
+        sel = [(a_, res) for a_, res in (paths or []) if any(term_of(fn, t, inline=False) == none_atom and v for t, v in res.assumed)]
+        if not sel or any(res.unknown is not None or res.returned is None for _, res in sel):
+            node = next((res.unknown for _, res in sel if res.unknown is not None), None)
+            chk.unsure('C20.2b', 'R15', fn.site(node) if node is not None else fn.site(), f'combination_type = {ctype!r}', 'the path that applies the built-in combination function could not be evaluated')
+            continue
+        for _, res in sel[:1]:
+            rt = term_of(fn, res.returned, inline=False)
+            bb = None
+            for src in ('numpy.column_stack((X, R))', 'numpy.hstack((X, R))', 'numpy.concatenate((X, R), axis=1)', 'numpy.c_[X, R]'):
+                bb = bb or unify(pattern(m, src, ['R']), rt)
+            site = fn.site(res.returned) if hasattr(res.returned, 'lineno') else fn.site()
+            if bb is None:
+                chk.expect_term(rt, [pattern(m, 'numpy.column_stack((X, numpy.sin(numpy.sum(X[:, feature_indices], axis=1))))')], 'C20.2c', 'R15', site, show(rt)[:160], '', 'the combination must be combination_function(X[:, feature_indices]) appended to X as one column')
+                continue
+            chk.ok('C20.2c', 'R15', site, show(rt)[:120], 'the combination is appended to the unchanged matrix as one column')
+            R = bb['R']
+            chk.expect_term(R, [want_t], 'C20.2b', 'R15', site, f'{ctype}: {show(R)[:120]}', f'{ctype} = ' + ('row sum' if ctype == 'linear' else 'sin of the row sum') + ' of the selected columns',
+                            f'the built-in {ctype} combination must be {show(want_t)[:100]}; found {show(R)[:140]}')
 
 
 def correlated(repo, chk):
@@ -191,9 +203,35 @@ def labels(repo, chk):
     bad = [s_ for s_ in steps if not s_[2]]
     chk.expect(len(steps) == 3 and not bad, 'C20.4b', 'R15', fn.site(bad[0][0]) if bad else fn.site(), '; '.join(s[1] for s in steps), 'label = number of cut points the decision value exceeds (monotone step function)',
                f'labels must be sums of indicators (decision > cut point); found {[s[1] for s in bad] or len(steps)}', soft=True)
-    dfs = {ast.unparse(n.value) for n in own_nodes(fn.node) if isinstance(n, ast.Assign) and isinstance(n.value, ast.Lambda)}
-    ok_d = 'lambda x: np.sum(2 * x + 3, axis=1)' in dfs and 'lambda x: np.sum(k * np.sin(x) + k * np.cos(x), axis=1)' in dfs
-    chk.expect(ok_d, 'C20.4c', 'R15', fn.site(), 'default decision functions', 'linear / nonlinear decision functions as documented', 'default decision functions changed')
+    # the built-in decision function of each class relation, looked up on the path where none is passed and applied to the data
+    from ..match import run_paths, PathEval
+    E = lambda s_: expected_term(m, s_)
+    first_use = next((i for i, st in enumerate(fn.node.body) if any(isinstance(c, ast.Call) and isinstance(c.func, ast.Name) and c.func.id == 'decision_function' for c in ast.walk(st))), None)
+    want = {'linear': E('numpy.sum(2 * X + 3, axis=1)'), 'nonlinear': E('numpy.sum(k * numpy.sin(X) + k * numpy.cos(X), axis=1)')}
+    none_atom = E('decision_function is None')
+    for rel, want_t in want.items():
+        if first_use is None:
+            chk.unsure('C20.4c', 'R15', fn.site(), f'class_relation = {rel!r}', 'no statement applies the decision function')
+            break
+        paths = run_paths(fn, lambda e: isinstance(e, ast.Name) and e.id == 'class_relation', rel, max_forks=6, body=fn.node.body[:first_use], eval_closures=True)
+        sel = [(a_, res) for a_, res in (paths or []) if res.raised is None and any(term_of(fn, t, inline=False) == none_atom and v for t, v in res.assumed)]
+        if not sel or any(res.unknown is not None for _, res in sel):
+            chk.unsure('C20.4c', 'R15', fn.site(), f'class_relation = {rel!r}', 'the statements that choose the built-in decision function could not be evaluated')
+            continue
+        got = set()
+        for _, res in sel:
+            pe = PathEval(fn, lambda e: isinstance(e, ast.Name) and e.id == 'class_relation', rel)
+            pe.env.update({k: v for k, v in (res.env or {}).items()})
+            pe.res = res
+            applied = pe.subst(ast.parse('decision_function(X)', mode='eval').body)
+            pe.eval_closures = True
+            applied = pe._eval_local_call(applied)
+            got.add(term_of(fn, applied, inline=False))
+        if len(got) != 1:
+            chk.unsure('C20.4c', 'R15', fn.site(), f'class_relation = {rel!r}', 'different decision functions on different paths')
+            continue
+        g = got.pop()
+        chk.expect_term(g, [want_t], 'C20.4c', 'R15', fn.site(), f'{rel}: {show(g)[:120]}', f'built-in {rel} decision function as documented', f'the built-in {rel} decision function must be {show(want_t)[:100]}; found {show(g)[:140]}')
 
 
 def _fresh(expr, X, m):
